@@ -80,7 +80,7 @@ def main():
                      "kind_free_text": "deterministic simulation: seeded design/history generator + SimWorld (fake solver/sampler/ILP peers, SimFS, scripted PRNGs, virtual clock/timer, fault injection) + reference-semantics and metamorphic oracles"}],
         "checks": checks,
         "not_applicable": na,
-        "notes": "Genuine defects repaired by 'fix:' commits in /repo and defects recorded as known findings are listed in findings/known_findings.json; see DESIGN.md section 14.",
+        "notes": "Genuine defects repaired by 'fix:' commits in /repo and defects recorded as known findings are listed in findings/known_findings.json; see DESIGN.md section 15.",
     }
     with open(os.path.join(HERE, "MANIFEST.json"), "w") as f:
         json.dump(m, f, indent=1)
